@@ -10,8 +10,10 @@ from translator.pyinterp import Interp, Obj, PyRaise, Unsupported, find_function
 # scripted graph: a (dims: t time, s plain; metrics x), b (dims: u time; metrics y), c (dims: v plain; metrics z) -- a and b are joined, c is not;
 # graph-level metrics: g1 (sql "a.x"), g2 (sql "c.z"), g3 (no dotted sql)
 MODELS = {"a": ({"t": "time", "s": "categorical"}, ["x"]), "b": ({"u": "time"}, ["y"]), "c": ({"v": "categorical"}, ["z"])}
-GRAPH_METRICS = {"g1": "a.x", "g2": "c.z", "g3": None}
-METRIC_LISTS = [[], ["a.x"], ["a.nope"], ["q.x"], ["g1"], ["g2", "b.y"], ["g3"], ["nope"], ["a.x", "b.y"], ["a.x", "c.z"], ["b.y", "c.z", "a.x"]]
+GRAPH_METRICS = {"g1": "a.x", "g2": "c.z", "g3": None, "g4": None, "g5": "b.y + a.x"}
+# what Metric.get_dependencies answers (scripted: it parses SQL with sqlglot): g4 is a ratio of a.x and c.z
+GRAPH_DEPS = {"g1": ["a.x"], "g2": ["c.z"], "g3": ["plain"], "g4": ["a.x", "c.z"], "g5": ["b.y", "a.x"]}
+METRIC_LISTS = [[], ["a.x"], ["a.nope"], ["q.x"], ["g1"], ["g2", "b.y"], ["g3"], ["nope"], ["a.x", "b.y"], ["a.x", "c.z"], ["b.y", "c.z", "a.x"], ["g4"], ["g5"], ["g4", "b.y"], ["g5", "g3"]]
 DIM_LISTS = [[], ["a.s"], ["a.t__month"], ["a.t__fortnight"], ["a.s__day"], ["a.nope"], ["q.s"], ["s"], ["b.u__week", "a.s"], ["c.v"], ["c.v__year", "b.u"], ["a.t__day", "a.t__year"],
              ["nodot__day"], ["q.s__minute"]]
 
@@ -75,8 +77,11 @@ def table(repo, real=False):
                     return D(self.d[n]) if n in self.d else None
 
             class GM:
-                def __init__(self, sql):
-                    self.sql = sql
+                def __init__(self, sql, deps):
+                    self.sql, self.deps = sql, deps
+
+                def get_dependencies(self, graph=None, model_context=None):
+                    return set(self.deps)
 
             class G:
                 models = {k: M(*v) for k, v in MODELS.items()}
@@ -84,7 +89,7 @@ def table(repo, real=False):
                 def get_metric(self, n):
                     if n not in GRAPH_METRICS:
                         raise KeyError(n)
-                    return GM(GRAPH_METRICS[n])
+                    return GM(GRAPH_METRICS[n], GRAPH_DEPS[n])
 
                 def find_relationship_path(self, x, y):
                     if not connected(x, y):
@@ -100,7 +105,7 @@ def table(repo, real=False):
             def get_metric(n):
                 if n not in GRAPH_METRICS:
                     raise PyRaise("KeyError", n)
-                return Obj("gmetric", {"sql": GRAPH_METRICS[n]})
+                return Obj("gmetric", {"sql": GRAPH_METRICS[n]}, {"get_dependencies": lambda graph=None, model_context=None, _n=n: set(GRAPH_DEPS[_n])})
 
             def frp(x, y):
                 if not connected(x, y):
